@@ -71,6 +71,16 @@ Definition prun (o : pop) (rows : list (list F)) : list (list F) :=
   | PIdentity => rows
   end.
 
+(* number of dimensions: monotonicity_prox / unimodality_prox treat a 1-D tensor as one column and raise ValueError for more than two
+   dimensions (explicit validation); simplex_prox / soft_sparsity_prox unpack `row, col = shape`, which raises ValueError as well; the
+   operators on the flattened tensor accept any number of dimensions (the tensor is then presented to prun as its first axis x the rest).
+   smoothness_prox with more than two dimensions (NumPy's stacked solve) is outside the model. *)
+Definition ndim_ok (o : pop) (ndim : nat) : bool :=
+  match o with
+  | PMonotone _ | PUnimodal | PSimplex _ | PSoftSparsity _ => (1 <=? ndim)%nat && (ndim <=? 2)%nat
+  | _ => true
+  end.
+
 (* `if n_const is None: return tensor`; `constraint, parameter = validate_constraints(...)` (may raise); `if constraint is None:
    return tensor`; else the branch of the selected name *)
 Definition selected_pop (n_const : option nat) (order : nat) (specs : kwargs) (aux : F) : res pop :=
@@ -85,6 +95,12 @@ Definition selected_pop (n_const : option nat) (order : nat) (specs : kwargs) (a
   end.
 Definition proximal_operator (n_const : option nat) (order : nat) (specs : kwargs) (aux : F) (rows : list (list F)) : res (list (list F)) :=
   match selected_pop n_const order specs aux with Ok o => Ok (prun o rows) | Err => Err end.
+(* the same for a tensor with [ndim] dimensions: the selected operator may refuse it *)
+Definition proximal_operator_nd (ndim : nat) (n_const : option nat) (order : nat) (specs : kwargs) (aux : F) (rows : list (list F)) : res (list (list F)) :=
+  match selected_pop n_const order specs aux with
+  | Ok o => if ndim_ok o ndim then Ok (prun o rows) else Err
+  | Err => Err
+  end.
 End Run.
 Arguments PNonneg {F}. Arguments PUnimodal {F}. Arguments PNormalize {F}. Arguments PIdentity {F}.
 Arguments PMonotone {F}. Arguments PHard {F}.
